@@ -84,10 +84,17 @@ class Result:
         self.sigs.add(h64(obj))
 
     def violation(self, key, case, msg):
-        if len(self.violations) < 50:
-            self.violations.append({'key': key, 'case': case, 'msg': str(msg)[:2000]})
         self.count('violations_raw')
         self.count('viol:' + key.rsplit('/', 1)[-1])
+        kf = _known_pattern(key)
+        if kf is not None:
+            # occurrences of a listed finding: keep the first one per task, never let them use up the room for new violations
+            self.count('known:' + kf)
+            if self.counters['known:' + kf] > 1: return
+            self.violations.append({'key': key, 'case': case, 'msg': str(msg)[:2000], 'known': True})
+            return
+        if sum(1 for v in self.violations if not v.get('known')) < 50:
+            self.violations.append({'key': key, 'case': case, 'msg': str(msg)[:2000]})
 
     def merge(self, other):
         self.evals += other.evals
@@ -101,6 +108,19 @@ class Result:
         self.states += other.states
         self.transitions += other.transitions
         self.validated += other.validated
+
+
+_KNOWN_CACHE = None
+
+
+def _known_pattern(key):
+    global _KNOWN_CACHE
+    if _KNOWN_CACHE is None:
+        _KNOWN_CACHE = [e for e in load_known() if e.get('status') == 'known']
+    prop = key.split('/', 1)[0]
+    for e in _KNOWN_CACHE:
+        if e.get('property') == prop and fnmatch.fnmatchcase(key, e['key']): return e['key']
+    return None
 
 
 def _worker(args):
